@@ -17,6 +17,7 @@ mod c09;
 mod c10;
 mod proc;
 mod c11;
+mod c12;
 mod c13;
 mod execchild;
 mod c16;
@@ -40,6 +41,7 @@ fn property(id: &str) -> Option<Property> {
         "C09" => c09::property(),
         "C10" => c10::property(),
         "C11" => c11::property(),
+        "C12" => c12::property(),
         "C13" => c13::property(),
         "C16" => c16::property(),
         "C17" => c17::property(),
